@@ -1,6 +1,7 @@
 import OV.Lemmas.C03Steps
 import OV.Lemmas.C03State
 import OV.Lemmas.C03Uses
+import OV.Lemmas.C04Closed
 /-!
 # C04 — `optimize()` is total on valid models; result valid, same interface; overridable
 initializer-inputs are never folded
@@ -230,6 +231,148 @@ theorem no_dangling_fragment (ctx : Ctx) (hnf : ctx.isFunction = false) (info : 
       g.inputs.contains x = false ∧ g.outputs.contains x = false ∧
       ∀ n ∈ (visitGraph ctx maxDepth (initialState g info) g).2.nodes, n.inputs.contains (some x) = false :=
   no_dangling_aux 7 ctx hnf info g hplain hnofresh
+
+/-- **Well-formedness is preserved on the generic-folding fragment** (`fold_wf`, one level): for every
+option tuple and annotation table, the nodes of the result are a sub-list of the input's nodes in
+their original order — nothing is reordered, duplicated or invented — hence the order condition
+(`orderOK`: no node mentions an output of a later node, i.e. single assignment + definition before
+use among the nodes) carries over from the input to the result; together with `no_dangling_fragment`
+(no popped initializer is still referenced) and `fold_signature` (inputs/outputs kept). -/
+theorem fold_wf_fragment (ctx : Ctx) (hnf : ctx.isFunction = false) (info : List (Name × VInfo)) (g : Graph)
+    (hplain : ∀ n ∈ g.nodes, Plain n) (hord : orderOK g.nodes = true) :
+    List.Sublist (visitGraph ctx maxDepth (initialState g info) g).2.nodes g.nodes ∧
+    orderOK (visitGraph ctx maxDepth (initialState g info) g).2.nodes = true :=
+  ⟨result_nodes_sublist 7 ctx hnf info g hplain, orderOK_sublist (result_nodes_sublist 7 ctx hnf info g hplain) hord⟩
+
+/-- `o = Mul(a, b); y = Sub(x, o)` with initializers `a`, `b`: a graph of the fragment -/
+def gWF : Graph :=
+  .mk ["x"] [("a", "t1"), ("b", "t2")]
+    [.mk "Mul" "" [some "a", some "b"] ["o"] [] [], .mk "Sub" "" [some "x", some "o"] ["y"] [] []] ["y"]
+
+/-- non-vacuity of `fold_wf_fragment` / `no_dangling_fragment`: `gWF` satisfies their hypotheses -/
+example : (∀ n ∈ gWF.nodes, Plain n) ∧ orderOK gWF.nodes = true := by
+  refine ⟨?_, by decide⟩
+  intro n hn
+  simp only [gWF, Graph.nodes, List.mem_cons, List.mem_nil_iff, or_false] at hn
+  rcases hn with rfl | rfl
+  · exact ⟨rfl, by decide, fun v => rfl, by decide⟩
+  · exact ⟨rfl, by decide, fun v => rfl, by decide⟩
+
+/-! ### fragment A: alias substitution, output replacement, one-node replacements -/
+
+/-- **No dangling reference on fragment A** (generic folding + `Constant` + `Identity` aliasing with input
+substitution and graph-output replacement + `Concat`/`Dropout` → `Identity` replacements): for every
+option tuple and annotation table, every initializer the pass pops is neither a formal input, nor an
+output of the *result*, nor an input of any node of the *result* — unconditionally (no execution
+hypothesis).  Proof (`visitNodes_bkA`): the use counts follow the alias substitution
+(`decUse x; incUse y`) and `replace_node` (`decUses` old inputs, `incUses` new ones) and stay upper
+bounds of the real occurrences; every recorded alias target is an input of an emitted node, so a
+graph output replaced by its alias never names a popped initializer. -/
+theorem no_dangling_fragmentA (ctx : Ctx) (hnf : ctx.isFunction = false) (info : List (Name × VInfo)) (g : Graph)
+    (hfr : ∀ n ∈ g.nodes, FragBk n) (hnofresh : ∀ k : Nat, cnt ("%" ++ toString k) g.nodes = 0) :
+    ∀ x, (foldGraph ctx info g).1.removed.contains x = true →
+      g.inputs.contains x = false ∧
+      (foldGraph ctx info g).2.outputs.contains x = false ∧
+      ∀ n ∈ (visitGraph ctx maxDepth (initialState g info) g).2.nodes, n.inputs.contains (some x) = false := by
+  intro x hx
+  have h := prune_ok_fragmentA 7 ctx hnf info g hfr hnofresh x hx
+  refine ⟨h.1, ?_, h.2.2⟩
+  have : (foldGraph ctx info g).2.outputs = (visitGraph ctx (7 + 1) (initialState g info) g).2.outputs := by
+    show (pruneInits _ (7 + 1) _).outputs = _
+    rfl
+  rw [this]
+  exact h.2.1
+
+/-- **Scope well-formedness is preserved on fragment A** (`fold_wf`, one level): if every node input of
+the graph is an initializer, a formal input, a name of the enclosing scope `sc` or an output of an
+*earlier* node, and every graph output is defined (`GraphClosed`), then the same holds of the graph
+`FoldConstantsPass` returns — after alias substitution into later inputs, replacement of nodes by
+initializers or by `Identity` nodes, replacement of graph outputs by their aliases **and** removal of
+the popped initializers.  For every option tuple and annotation table; no execution hypothesis.
+Proof: `visitNodes_clA` (invariant `ClA`: emitted ++ pending nodes are closed over the scope extended
+by the initializers registered so far; every recorded alias target is already in scope; every
+originally defined name stays defined), then `no_dangling_fragmentA` to drop the popped names from
+the scope (`ClosedL_restrict`). -/
+theorem fold_closed_fragmentA (ctx : Ctx) (hnf : ctx.isFunction = false) (info : List (Name × VInfo)) (g : Graph)
+    (hfr : ∀ n ∈ g.nodes, FragBk n) (hnofresh : ∀ k : Nat, cnt ("%" ++ toString k) g.nodes = 0)
+    (sc : List Name) (hcl : GraphClosed sc g) : GraphClosed sc (foldGraph ctx info g).2 :=
+  foldGraph_closedA ctx hnf info g hfr hnofresh sc hcl
+
+def tokWA : CInfo := { tok := "t1", dtype := 1, shape := [], ints := none, isZero := some false }
+def tokWB : CInfo := { tok := "t2", dtype := 1, shape := [], ints := none, isZero := some false }
+
+def ctxWA : Ctx :=
+  { inLimit := 8192, outLimit := 262144, shouldFold := none, imports := [("", 18)], isFunction := false,
+    toks := [("t1", tokWA), ("t2", tokWB)],
+    oracle := [("Mul||18|t1&t2|", .single { tok := "f", dtype := 1, shape := [], ints := none, isZero := some false })] }
+
+def infoWA : List (Name × VInfo) :=
+  [("a", { dtype := some 1, shape := some [], const := some tokWA }), ("b", { dtype := some 1, shape := some [], const := some tokWB })]
+
+/-- `c = Constant; o = Mul(a, b); s = Sub(x, o); y = Identity(s); z = Div(y, c); w = Concat(z); u = Dropout(w)`, outputs `y, u` -/
+def gWFA : Graph :=
+  .mk ["x"] [("a", "t1"), ("b", "t2")]
+    [.mk "Constant" "" [] ["c"] [("value", .tensor "t1")] [],
+     .mk "Mul" "" [some "a", some "b"] ["o"] [] [],
+     .mk "Sub" "" [some "x", some "o"] ["s"] [] [],
+     .mk "Identity" "" [some "s"] ["y"] [] [],
+     .mk "Div" "" [some "y", some "c"] ["z"] [] [],
+     .mk "Concat" "" [some "z"] ["w"] [("axis", .int 0)] [],
+     .mk "Dropout" "" [some "w"] ["u"] [] []] ["y", "u"]
+
+/-- every rewriting step of fragment A fires on `gWFA`: `a`, `b` are popped, `o` is registered -/
+example : (foldGraph ctxWA infoWA gWFA).2.nodes.map (fun n => (n.op, n.inputs, n.outputs)) =
+      [("Constant", [], ["c"]), ("Sub", [some "x", some "o"], ["s"]), ("Identity", [some "s"], ["y"]),
+       ("Div", [some "s", some "c"], ["z"]), ("Identity", [some "z"], ["w"]), ("Identity", [some "z"], ["u"])] ∧
+    (foldGraph ctxWA infoWA gWFA).2.outputs = ["s", "z"] ∧ (foldGraph ctxWA infoWA gWFA).2.inits = [("o", "f")] ∧
+    (foldGraph ctxWA infoWA gWFA).1.removed = ["b", "a"] := by decide
+
+theorem fresh_ne' (k : Nat) (s : String) (hs : s.toList.head? ≠ some '%') : "%" ++ toString k ≠ s := by
+  intro h
+  apply hs
+  rw [← h]
+  simp [String.toList_append]
+
+/-- non-vacuity of `no_dangling_fragmentA` / `fold_closed_fragmentA`: `gWFA` satisfies their hypotheses -/
+theorem gWFA_hyps : (∀ n ∈ gWFA.nodes, FragBk n) ∧ (∀ k : Nat, cnt ("%" ++ toString k) gWFA.nodes = 0) ∧ GraphClosed [] gWFA := by
+  refine ⟨?_, ?_, ?_, ?_⟩
+  · intro n hn
+    simp only [gWFA, Graph.nodes, List.mem_cons, List.mem_nil_iff, or_false] at hn
+    rcases hn with rfl | rfl | rfl | rfl | rfl | rfl | rfl
+    · exact ⟨rfl, by decide, Or.inr (Or.inl ⟨by decide, rfl, "c", rfl⟩)⟩
+    · exact ⟨rfl, by decide, Or.inl ⟨by decide, fun v => rfl⟩⟩
+    · exact ⟨rfl, by decide, Or.inl ⟨by decide, fun v => rfl⟩⟩
+    · exact ⟨rfl, by decide, Or.inr (Or.inr (Or.inl ⟨rfl, rfl, "s", "y", rfl, rfl⟩))⟩
+    · exact ⟨rfl, by decide, Or.inl ⟨by decide, fun v => rfl⟩⟩
+    · exact ⟨rfl, by decide, Or.inr (Or.inr (Or.inr (clsX_concat1 _ "z" "w" rfl rfl rfl)))⟩
+    · exact ⟨rfl, by decide, Or.inr (Or.inr (Or.inr (clsX_dropout _ "w" "u" [] rfl rfl (by decide) rfl)))⟩
+  · intro k
+    simp only [cnt, gWFA, Graph.nodes, List.flatMap_cons, List.flatMap_nil, Node.inputs, List.append_nil, List.cons_append,
+      List.nil_append]
+    apply List.count_eq_zero.mpr
+    simp only [List.mem_cons, Option.some.injEq, List.mem_nil_iff, or_false]
+    intro h
+    rcases h with h | h | h | h | h | h | h | h | h
+    · exact fresh_ne' k "a" (by decide) h
+    · exact fresh_ne' k "b" (by decide) h
+    · exact fresh_ne' k "x" (by decide) h
+    · exact fresh_ne' k "o" (by decide) h
+    · exact fresh_ne' k "s" (by decide) h
+    · exact fresh_ne' k "y" (by decide) h
+    · exact fresh_ne' k "c" (by decide) h
+    · exact fresh_ne' k "z" (by decide) h
+    · exact fresh_ne' k "w" (by decide) h
+  · simp [gWFA, ClosedL, Graph.inits, Graph.inputs, Graph.nodes, Node.inputs, Node.outputs]
+  · intro o ho
+    simp only [gWFA, Graph.outputs, List.mem_cons, List.mem_nil_iff, or_false] at ho
+    right
+    rcases ho with rfl | rfl
+    · exact ⟨.mk "Identity" "" [some "s"] ["y"] [] [], by simp [gWFA, Graph.nodes], by simp [Node.outputs]⟩
+    · exact ⟨.mk "Dropout" "" [some "w"] ["u"] [] [], by simp [gWFA, Graph.nodes], by simp [Node.outputs]⟩
+
+/-- …hence the conclusions hold of the result on `gWFA` -/
+example : GraphClosed [] (foldGraph ctxWA infoWA gWFA).2 :=
+  fold_closed_fragmentA ctxWA rfl infoWA gWFA gWFA_hyps.1 gWFA_hyps.2.1 [] gWFA_hyps.2.2
 
 /-! ### refuted clauses (findings) and regression witnesses of fixed ones -/
 
